@@ -367,3 +367,12 @@ mod tests {
         }
     }
 }
+
+#[cfg(feature = "verif-hooks")]
+impl<R> Reader<'_, R> {
+    /// Read-only view of the block bookkeeping, for external runtime monitors:
+    /// (items left in the current block, read offset into the block buffer, block buffer length).
+    pub fn verif_block_state(&self) -> (usize, usize, usize) {
+        self.block.verif_state()
+    }
+}
